@@ -130,7 +130,7 @@ func forEachBlock(thorough bool, emit func(block)) {
 		{ch: "json", style: "min"}, {ch: "json", style: "u"},
 		{ch: "xmlattr", style: "min"}, {ch: "xmlattr", style: "ref"},
 		{ch: "xmltext", style: "min"}, {ch: "xmltext", style: "ref"}, {ch: "xmltext", style: "cdata"},
-		{ch: "json", style: "list"}, {ch: "json", style: "literal"},
+		{ch: "json", style: "list"}, {ch: "json", style: "literal"}, {ch: "json", style: "toparr"},
 	}
 	secondary := []combo{
 		{ch: "urlenc", style: "pct", ctype: "charset"}, {ch: "urlenc", style: "pct", ctype: "charset-nospace"},
@@ -164,7 +164,7 @@ func forEachBlock(thorough bool, emit func(block)) {
 			emit(block{tmpl: Case{Chan: cb.ch, Style: style, CType: cb.ctype, Set: cb.set, Items: []Item{it}}, vals: [][]string{vals}})
 		}
 	}
-	light := map[string]bool{"plus": true, "u": true, "ref": true, "tok": true, "file-tok": true, "list": true, "cdata": true}
+	light := map[string]bool{"toparr": true, "plus": true, "u": true, "ref": true, "tok": true, "file-tok": true, "list": true, "cdata": true}
 	for _, cb := range primary {
 		switch {
 		case thorough && (cb.ch == "query" || cb.ch == "urlenc") && cb.style != "plus":
@@ -197,7 +197,7 @@ func forEachBlock(thorough bool, emit func(block)) {
 	wireVals3 := []string{"", "a", "%41"}
 	tokNames := items("a", "A", "%41", "a+", "a.")
 	argLimits := []Setting{{}, {Limit: 1}, {Limit: 2}}
-	bodyLimits := []Setting{{}, {BodyLimit: 9, BodyAction: "Reject"}, {BodyLimit: 9, BodyAction: "ProcessPartial"}}
+	bodyLimits := []Setting{{}, {BodyLimit: 9, BodyAction: "Reject"}, {BodyLimit: 9, BodyAction: "ProcessPartial"}, {MemLimit: 4}}
 	jsonNames := append(items("a", "A", "", "a.a", "A.a", "%41", "\\u0041"),
 		Item{Name: "a", Sub: "a", Kind: "n"}, Item{Name: "A", Sub: "a", Kind: "n"}, Item{Name: "a", Sub: "", Kind: "n"},
 		Item{Name: "a", Sub: "a.a", Kind: "n"}, Item{Name: "a.a", Sub: "a", Kind: "n"}, Item{Name: "", Sub: "a", Kind: "n"},
@@ -217,8 +217,9 @@ func forEachBlock(thorough bool, emit func(block)) {
 		{cb: combo{ch: "urlenc", style: "plus"}, names: wireNames, vals: wireVals, vals3: wireVals3},
 		{cb: combo{ch: "urlenc", style: "sloppy"}, names: wireNames, vals: wireVals, vals3: wireVals3},
 		{cb: combo{ch: "urlenc", style: "pct", ctype: "forcevar"}, names: wireNames, vals: wireVals3, vals3: wireVals3},
-		{cb: combo{ch: "multipart"}, names: mpNames, vals: wireVals, vals3: wireVals3, fvals: []string{"a", "A", "a.a", "%41", "a\"", "/a"}, limits: []Setting{{}, {Limit: 1}}},
-		{cb: combo{ch: "json", style: "min"}, names: jsonNames, vals: []string{"", "a", "A", "%41", "\\u0041", "é\""}, vals3: []string{"", "a", "\\u0041"}, limits: []Setting{{}, {Limit: 1}}},
+		{cb: combo{ch: "multipart"}, names: mpNames, vals: wireVals, vals3: wireVals3, fvals: []string{"a", "A", "a.a", "%41", "a\"", "/a"}, limits: []Setting{{}, {Limit: 1}, {MemLimit: 4}}},
+		{cb: combo{ch: "json", style: "min"}, names: jsonNames, vals: []string{"", "a", "A", "%41", "\\u0041", "é\""}, vals3: []string{"", "a", "\\u0041"}, limits: []Setting{{}, {Limit: 1}, {MemLimit: 4}}},
+		{cb: combo{ch: "json", style: "toparr"}, names: jsonNames, vals: []string{"", "a", "\\u0041"}, vals3: []string{"a", "\\u0041"}},
 		{cb: combo{ch: "json", style: "u"}, names: jsonNames, vals: []string{"", "a", "\\u0041"}, vals3: []string{"a", "\\u0041"}},
 		{cb: combo{ch: "xmlattr", style: "min"}, names: items("a", "A"), vals: strs(symXML, 1), vals3: []string{"", "a", " a", "&amp;", "<"}},
 		{cb: combo{ch: "xmltext", style: "min"}, names: items("a", "A"), vals: strs(symXML, 1), vals3: []string{"", "a", " a", "&amp;", "<"}},
